@@ -85,14 +85,35 @@ Theorem C09_removed_on_close n cid r c :
   forall l, ~ List.In (c_host c, l) (n_peer_waiting (remove_conn n cid r)).
 Proof. exact (@NodeC.C09_removed_on_close n cid r c). Qed.
 
-(* C09: an answer that cannot be routed although some host was waiting for its pair (no connection
-   of that host, or the connection is not ready) releases the pair's entry of the origin table *)
-Theorem C09_unroutable_releases_origin n m :
+(* C09 (old statement, origin table keyed by the pair only; false for the table keyed by connection,
+   see ex_C09_unroutable_releases_origin_refuted below):
+     fst (route_answer n m) = None ->
+     List.find (fun e => mem_zz (o_hbh m, o_e2e m) (snd e)) (n_peer_waiting n) <> None ->
+     forall h e x, List.In (h, e, x) (n_origin_waiting (snd (route_answer n m))) ->
+                   ~ (h = o_hbh m /\ e = o_e2e m).
+   New: an answer that cannot be routed although a host was waiting for its pair AND a connection
+   with that host identity exists (which then is not ready) releases that connection's entry for
+   the pair; every other entry of the origin table stays. *)
+Theorem C09_unroutable_releases_origin n m host l c :
+  List.find (fun e => mem_zz (o_hbh m, o_e2e m) (snd e)) (n_peer_waiting n) = Some (host, l) ->
+  List.find (fun c => String.eqb (c_host c) host) (n_conns n) = Some c ->
   fst (route_answer n m) = None ->
-  List.find (fun e => mem_zz (o_hbh m, o_e2e m) (snd e)) (n_peer_waiting n) <> None ->
-  forall h e x, List.In (h, e, x) (n_origin_waiting (snd (route_answer n m))) ->
-                ~ (h = o_hbh m /\ e = o_e2e m).
-Proof. exact (@NodeC.C09_unroutable_releases_origin n m). Qed.
+  is_ready_state (c_state c) = false /\
+  (forall k h e x, List.In (k, h, e, x) (n_origin_waiting (snd (route_answer n m))) ->
+                   ~ (k = c_id c /\ h = o_hbh m /\ e = o_e2e m)) /\
+  (forall k h e x, List.In (k, h, e, x) (n_origin_waiting n) ->
+                   ~ (k = c_id c /\ h = o_hbh m /\ e = o_e2e m) ->
+                   List.In (k, h, e, x) (n_origin_waiting (snd (route_answer n m)))).
+Proof. exact (@NodeC.C09_unroutable_releases_origin n m host l c). Qed.
+
+(* when no connection carries the waiting host's identity the origin table is left as it is (the
+   entries of a connection leave with the connection, remove_conn) *)
+Theorem C09_unroutable_no_conn_keeps_origin n m host l :
+  List.find (fun e => mem_zz (o_hbh m, o_e2e m) (snd e)) (n_peer_waiting n) = Some (host, l) ->
+  List.find (fun c => String.eqb (c_host c) host) (n_conns n) = None ->
+  fst (route_answer n m) = None /\
+  n_origin_waiting (snd (route_answer n m)) = n_origin_waiting n.
+Proof. exact (@NodeC.C09_unroutable_no_conn_keeps_origin n m host l). Qed.
 
 (* ... and when the application's handler raises, the request is delivered and answered 5012 on the
    same connection, and no pair is left behind *)
@@ -149,6 +170,7 @@ Print Assumptions FromNodeC.C09_second_fails.
 Print Assumptions FromNodeC.C09_second_is_error.
 Print Assumptions FromNodeC.C09_removed_on_close.
 Print Assumptions FromNodeC.C09_unroutable_releases_origin.
+Print Assumptions FromNodeC.C09_unroutable_no_conn_keeps_origin.
 Print Assumptions FromNodeC.C09_raise_leaves_no_entry.
 Print Assumptions FromNodeE.C07_history_app_answers.
 Print Assumptions FromNodeE.C07_history_app_answers_at.
